@@ -165,7 +165,12 @@ theorem mapDocument_length (h : Hooks) (d : Document) : (mapDocument h d).length
 
 /-! Non-vacuity: a field probe that hits renames exactly that field -/
 example :
-    (transformDocument { field := some ⟨1, 0, 99⟩ } [.op ⟨.shorthand, ⟨0, 0⟩, none, [], [], [.field ⟨1, 3⟩ none 20 [] [] []]⟩]).1.getD []
+    (transformDocument { field := some ⟨1, 0, 99, false⟩ } [.op ⟨.shorthand, ⟨0, 0⟩, none, [], [], [.field ⟨1, 3⟩ none 20 [] [] []]⟩]).1.getD []
       = [.op ⟨.shorthand, ⟨0, 0⟩, none, [], [], [.field ⟨1, 3⟩ none 99 [] [] []]⟩] := by rfl
+
+/-! Non-vacuity: a value probe answering `null` for a variable default yields the definition with default `null`, not without default -/
+example :
+    (transformVariableDefinition { value := some ⟨1, 0, 99, true⟩ } ⟨⟨1, 8⟩, 20, .named 3, some (.int 1)⟩).1.getD default
+      = ⟨⟨1, 8⟩, 20, .named 3, some .null⟩ := by rfl
 
 end Gql.C17
